@@ -584,6 +584,20 @@ func dischargeOne(o *Obligation, cfg dischargeCfg) {
 			atomic.AddInt32(&solverErrors, 1)
 		}
 	}()
+	if o.lemmaText != "" {
+		file := writeQuery(cfg.dir, o.Name, "(set-logic ALL)\n"+o.lemmaText+"\n")
+		r := raceSolvers(file, cfg.timeoutS, cfg.all)
+		o.Stage, o.Solver, o.TimeS, o.Answers, o.Model = "lemma", r.Solver, r.TimeS, r.Answers, r.Output
+		switch {
+		case r.Status == o.lemmaExpect:
+			o.Status = "unsat" // as expected: counts as discharged
+		case r.Status == "sat" || r.Status == "unsat":
+			o.Status = "sat" // definite wrong answer
+		default:
+			o.Status = r.Status
+		}
+		return
+	}
 	idx := cfg.idxSortOf(o.Mode)
 	try := func(stage string, timeout int) SolverResult {
 		q := o.buildQuery(stage, idx)
